@@ -689,6 +689,16 @@ static void run_lifeprobe(const std::vector<std::string> &w, out &o)
     else if (k == "copy") { TArr x(a); TArr y(x); }
     else if (k == "assign") { TArr x(a), y(b); x = y; }
     else if (k == "selfassign") { TArr x(a); TArr &y = x; x = y; }
+    else if (k == "arrmisc")
+    { // initializer-list constructor, fill, begin/end, clear
+        TArr x{Tracked(1), Tracked(2), Tracked(3)};
+        if (x.size() != 3 || x[0].v != 1 || x[2].v != 3) LG.err("initializer_list constructor: wrong content");
+        x.fill(Tracked((int)a));
+        for (auto &e : x) if (e.v != (int)a) LG.err("fill: element not set");
+        if (x.end() - x.begin() != 3) LG.err("begin/end do not span size()");
+        x.clear();
+        if (x.size() != 0 || x.data() != nullptr) LG.err("clear: array not empty");
+    }
     else if (k == "ringctor") { TRng r((int)a); TRng e; e.resize(b); }
     else if (k == "push") { TRng r((int)a); for (long i = 0; i < b; i++) r.push(Tracked((int)i)); }
     else if (k == "pushpop") { TRng r((int)a); for (long i = 0; i < b; i++) { r.push(Tracked((int)i)); r.pop(); } }
@@ -873,6 +883,10 @@ static void run_op(const std::vector<std::string> &w, const std::string &, out &
             cr->buf.reset(new exact_buf(blen));
             for (size_t i = 0; i < blen; i++) cr->buf->p[i] = (uint8_t)(i * 7 + 3);
             ring_init(&cr->r, size);
+            {
+                ring_head m = RING_HEAD_INIT(size); // the static initialiser must describe the same ring
+                if (m.head != cr->r.head || m.tail != cr->r.tail || m.size != cr->r.size) o.fail("RING_HEAD_INIT differs from ring_init");
+            }
             kind = 1;
             cring_check(*cr, o, blen >= size);
             o.result = "- " + cring_state(&cr->r);
@@ -1510,6 +1524,7 @@ static void gen_lifetime()
     for (int a : {0, 1, 3, 8})
     {
         P("lifeprobe array " + S(a));
+        P("lifeprobe arrmisc " + S(a));
         P("lifeprobe copy " + S(a));
         P("lifeprobe selfassign " + S(a));
         for (int b : {0, 1, 5})
